@@ -1,6 +1,7 @@
 import Proofs.C14
 import Proofs.C14Clean
 import Proofs.C14Chain
+import Proofs.C14Fault
 import Gen.C14
 
 /-!
@@ -656,5 +657,156 @@ example : (log demoH KV.empty demoOps).length = 8 := by decide
 example : (log demoH KV.empty demoOps)[5]? =
     some [.del "/i/A1", .put "/h/5" [4], .put "/d/5" [5], .put "/c/5" [6], .put "/i/A4" (encodeHeight 5)] := by decide
 example : ((log demoH KV.empty demoOps)[7]?).map List.length = some 4 := by decide
+
+/-! ## transient read faults of the datastore (`Proofs/C14Fault.lean`)
+
+`Faults`: which `Get`s of ONE call return a transient error; `Call`: every method of `DefaultStore`;
+`Call.runF`: the error the call answers and the atomic writes it issued — built from the `…F` methods the driver
+executes (`Drv/C14.lean`, op `fault get=<n> skip=<k>`).  A failing call is outside the property's quantifier; what
+the property demands is that it leaves nothing behind.  Since /repo 3ba0234 this holds of EVERY method
+(`SaveBlockData` used to swallow the error and commit without the delete of the replaced header's index entry:
+`old_store_read_fault_keeps_stale_hash`). -/
+
+/-- **a call whose read is faulted answers an error and writes nothing**: every store state, every method that
+reads, every fault pattern that hits the first read; hence the store — height, blocks, hash index, state,
+metadata — is unchanged -/
+theorem C14_read_fault_writes_nothing (keyOk : Bytes → Bool) (H : Bytes → Option Bytes) (f : Faults) (kv : KV)
+    (c : Call) (hr : c.reads = true) (hf : f 0 = true) :
+    c.runF keyOk H f kv = (some .io, []) ∧
+    applyAll kv (c.runF keyOk H f kv).2 = kv ∧
+    abs (applyAll kv (c.runF keyOk H f kv).2) = abs kv := by
+  have e := first_read_fault keyOk H f kv c hr hf
+  rw [e]; exact ⟨rfl, rfl, rfl⟩
+
+/-- … and wherever the fault hits (a later read of the call): a call that answers an error — any error — issued no
+write at all -/
+theorem C14_failed_call_writes_nothing (keyOk : Bytes → Bool) (H : Bytes → Option Bytes) (f : Faults) (kv : KV)
+    (c : Call) (e : Err) (he : (c.runF keyOk H f kv).1 = some e) :
+    (c.runF keyOk H f kv).2 = [] ∧ abs (applyAll kv (c.runF keyOk H f kv).2) = abs kv := by
+  have h := failed_call_writes_nothing keyOk H f kv c e he
+  rw [h]; exact ⟨rfl, rfl⟩
+
+/-- a call that does NOT fail under a fault pattern issued exactly the writes of the fault-free call -/
+theorem C14_unfailed_call_writes_as_without_faults (H : Bytes → Option Bytes) (f : Faults) (kv : KV) (op : Op)
+    (h : faulted H f kv op = false) : writesF H kv f op = writes H kv op := by
+  rw [writesF_eq]; simp [h]
+
+/-- the seeded class, by name: `SetHeight(h)` whose look-up of the recorded height fails returns the error and
+writes nothing — for every `h`, also one BELOW the recorded height -/
+theorem C14_setHeight_read_fault (f : Faults) (kv : KV) (h : Nat) (hf : f 0 = true) :
+    setHeightF f kv h = .error .io ∧ setHeightWF f kv h = [] := by
+  simp [setHeightWF, setHeightF, heightF, hf]
+
+/-- without faults the methods the driver executes are the methods of the theorems above -/
+theorem C14_no_faults (keyOk : Bytes → Bool) (H : Bytes → Option Bytes) (kv : KV) :
+    (∀ op, writesF H kv noFaults op = writes H kv op) ∧
+    heightF noFaults kv = height kv ∧
+    (∀ h, setHeightF noFaults kv h = setHeight kv h) ∧
+    (∀ sh d sig, saveBlockDataF keyOk noFaults kv sh d sig = .ok (saveBlockData keyOk kv sh d sig)) ∧
+    (∀ h, getHeaderF keyOk noFaults 0 kv h = getHeader keyOk kv h) ∧
+    (∀ h, getBlockDataF keyOk noFaults 0 kv h = getBlockData keyOk kv h) ∧
+    (∀ x, getBlockByHashF keyOk noFaults kv x = getBlockByHash keyOk kv x) ∧
+    (∀ h, getSignatureF noFaults 0 kv h = getSignature kv h) ∧
+    (∀ x, getSignatureByHashF noFaults kv x = getSignatureByHash kv x) ∧
+    getStateF noFaults kv = getState kv ∧
+    (∀ k, getMetadataF noFaults kv k = getMetadata kv k) :=
+  ⟨writesF_noFaults H kv, heightF_noFaults kv, setHeightF_noFaults kv, saveBlockDataF_noFaults keyOk kv,
+   getHeaderF_noFaults keyOk 0 kv, getBlockDataF_noFaults keyOk 0 kv, getBlockByHashF_noFaults keyOk kv,
+   getSignatureF_noFaults 0 kv, getSignatureByHashF_noFaults kv, getStateF_noFaults kv, getMetadataF_noFaults kv⟩
+
+/-- **every history in which any subset of calls meets read faults is the fault-free history of the calls that
+did not fail**: the same key-value image, hence the invariant and the refinement to the abstract map — and with
+them `reads_refine`, `byHash_full`, … — hold of it -/
+theorem C14_read_fault_history (H : Bytes → Option Bytes) (cs : List (Faults × Op)) (hcs : ∀ c ∈ cs, c.2.OK H) :
+    runF H KV.empty cs = run H KV.empty (effective H KV.empty cs) ∧
+    (∀ op ∈ effective H KV.empty cs, op.OK H) ∧
+    Inv H (runF H KV.empty cs) ∧
+    abs (runF H KV.empty cs) = Abs.init.run (effective H KV.empty cs) := by
+  have e := runF_eq_run H KV.empty cs
+  have ok := effective_ok KV.empty cs hcs
+  have r := refinement H _ ok
+  rw [e]; exact ⟨rfl, ok, r.1, r.2⟩
+
+/-- **the recorded height only grows** along every history, whichever calls meet read faults -/
+theorem C14_height_only_grows_under_read_faults (H : Bytes → Option Bytes) (cs more : List (Faults × Op))
+    (h1 : ∀ c ∈ cs, c.2.OK H) (h2 : ∀ c ∈ more, c.2.OK H) :
+    (abs (runF H KV.empty cs)).height ≤ (abs (runF H KV.empty (cs ++ more))).height := by
+  have hi := (C14_read_fault_history H cs h1).2.2.1
+  rw [runF_append, runF_eq_run H (runF H KV.empty cs) more]
+  exact height_mono_run hi _ (effective_ok _ more h2)
+
+/-- … and what a `SetHeight` does to it: nothing when its read is faulted, the maximum otherwise -/
+theorem C14_setHeight_under_read_faults (H : Bytes → Option Bytes) (cs : List (Faults × Op))
+    (hcs : ∀ c ∈ cs, c.2.OK H) (f : Faults) (h : Nat) (hh : h < 2 ^ 64) :
+    (abs (stepF H (runF H KV.empty cs) (f, .setHeight h))).height =
+      if f 0 = true then (abs (runF H KV.empty cs)).height else max (abs (runF H KV.empty cs)).height h := by
+  have hi := (C14_read_fault_history H cs hcs).2.2.1
+  rw [stepF_eq]
+  by_cases hf : f 0 = true
+  · simp [faulted, hf]
+  · have := abs_step hi (op := .setHeight h) hh
+    simp only [faulted, hf, if_false, Bool.false_eq_true]
+    rw [this, setHeight_is_max]
+
+/-! ### non-vacuity: the demo history with read faults at a `SetHeight` below the recorded height, at a save
+over another header (first and second read) and at nothing -/
+
+def demoCalls : List (Faults × Op) :=
+  [(noFaults, .save 5 [0xA1] ⟨[1], [2], [3]⟩), (noFaults, .setHeight 5), (Faults.window 0 1, .setHeight 3),
+   (Faults.window 0 1, .setHeight 9), (Faults.window 0 1, .save 5 [0xA4] ⟨[4], [5], [6]⟩),
+   (Faults.window 1 1, .save 5 [0xA4] ⟨[4], [5], [6]⟩), (Faults.window 1 1, .save 6 [0xA1] ⟨[1], [2], [3]⟩),
+   (Faults.window 1 1, .setHeight 7), (Faults.window 0 3, .setMetadata "d" [7])]
+
+theorem demoCalls_ok : ∀ c ∈ demoCalls, c.2.OK demoH := by
+  intro c hc
+  simp only [demoCalls, List.mem_cons, List.mem_nil_iff, or_false] at hc
+  rcases hc with rfl | rfl | rfl | rfl | rfl | rfl | rfl | rfl | rfl <;> simp only [Op.OK] <;> decide
+
+/- five of the nine calls did not fail: the first two, the save of height 6 (nothing stored there: one read only),
+the `SetHeight(7)` whose only read is not the faulted one, and the metadata write (no reads) -/
+example : (effective demoH KV.empty demoCalls).length = 5 := by decide
+example : height (runF demoH KV.empty demoCalls) = .ok 7 := by decide
+example : height (runF demoH KV.empty (demoCalls.take 4)) = .ok 5 := by decide
+example : getBlockBlobsByHash (runF demoH KV.empty (demoCalls.take 6)) [0xA1] = .ok ([1], [2]) := by decide
+example : (Call.write (.setHeight 3)).runF wOk demoH (Faults.window 0 1) (runF demoH KV.empty (demoCalls.take 2)) =
+    (some .io, []) := by decide
+example : (Call.write (.save 5 [0xA4] ⟨[4], [5], [6]⟩)).runF wOk demoH (Faults.window 1 1)
+    (runF demoH KV.empty (demoCalls.take 2)) = (some .io, []) := by decide
+example : ((Call.write (.save 5 [0xA4] ⟨[4], [5], [6]⟩)).runF wOk demoH (Faults.window 2 1)
+    (runF demoH KV.empty (demoCalls.take 2))).1 = none := by decide
+example : (Call.signatureByHash [0xA1]).runF wOk demoH (Faults.window 1 1) (runF demoH KV.empty (demoCalls.take 2)) =
+    (some .io, []) := by decide
+
+/-! ### the repaired defect `C14/read/by-hash-returns-other-block-after-height-overwrite/after-read-fault`
+
+Height 1 is saved with header A, then with header B while the look-up of the header being replaced (first read) or
+of its index entry (second read) meets a read fault. -/
+
+def afterSaveA : KV := applyAll KV.empty (saveBlockData wOk KV.empty shA {} [7])
+
+/-- the second save through the write-set `SaveBlockData` issued BEFORE /repo 3ba0234 under that fault -/
+def faultedSaveOld (f : Faults) : KV :=
+  applyAll afterSaveA
+    [saveBlobsWSFOld (storedHeaderHash wOk) f afterSaveA 1 shB.header.hash ⟨shB.encode, ({} : Wire.Data).encode, [8]⟩]
+
+/-- **old witness**: the call "succeeded", the stale index entry stayed, and the read by A's hash returned B's block
+and B's signature — for a fault at the first and at the second read -/
+theorem old_store_read_fault_keeps_stale_hash :
+    getBlockByHash wOk (faultedSaveOld (Faults.window 0 1)) shA.header.hash = .ok (shB, {}) ∧
+    getSignatureByHash (faultedSaveOld (Faults.window 0 1)) shA.header.hash = .ok [8] ∧
+    getBlockByHash wOk (faultedSaveOld (Faults.window 1 1)) shA.header.hash = .ok (shB, {}) ∧
+    getSignatureByHash (faultedSaveOld (Faults.window 1 1)) shA.header.hash = .ok [8] := by decide +kernel
+
+/-- for EVERY state: with the first read faulted the old code wrote exactly the pre-34bccfd write-set -/
+theorem old_store_read_fault_is_pre_fix_save (H : Bytes → Option Bytes) (f : Faults) (kv : KV) (h : Nat) (x : Bytes)
+    (b : Block) (hf : f 0 = true) : saveBlobsWSFOld H f kv h x b = saveBlobsWSOld h x b :=
+  saveBlobsWSFOld_first_read_fault H f kv h x b hf
+
+/-- the same calls now: an error, nothing written; with no read faulted, the save of `twoSaves` -/
+theorem repaired_store_read_fault_fails :
+    saveBlockDataF wOk (Faults.window 0 1) afterSaveA shB {} [8] = .error .io ∧
+    saveBlockDataF wOk (Faults.window 1 1) afterSaveA shB {} [8] = .error .io ∧
+    saveBlockDataF wOk (Faults.window 2 1) afterSaveA shB {} [8] = .ok (saveBlockData wOk afterSaveA shB {} [8]) := by
+  decide +kernel
 
 end Spec.C14
